@@ -347,12 +347,13 @@ def run(ctx: Ctx):
     n_io = 0
     for tr in [x for x in A.walk_no_nested(hc_.node) if isinstance(x, ast.Try)]:
         io = [c for b in tr.body for c in ast.walk(b) if isinstance(c, ast.Call) and isinstance(c.func, ast.Attribute)
-              and c.func.attr in ("send", "sctp_send", "recv")]
+              and c.func.attr in ("send", "sctp_send", "sendall", "sendmsg", "recv", "recv_into", "recvmsg",
+                                  "recvfrom", "sctp_recv")]
         if not io:
             continue
         n_io += 1
         what = io[0].func.attr
-        cons = f"_handle_connections:{'recv' if what == 'recv' else 'send'}-failure#soft-set-consulted"
+        cons = f"_handle_connections:{'recv' if 'recv' in what else 'send'}-failure#soft-set-consulted"
         ctx.inst(cons)
         for h in tr.handlers:
             for c in [c for b in h.body for c in ast.walk(b) if isinstance(c, ast.Call)
@@ -363,8 +364,13 @@ def run(ctx: Ctx):
                     p_ = par_[cur]
                     if isinstance(p_, ast.If) and "SOFT_SOCKET_FAILURES" in ast.unparse(p_.test):
                         t = p_.test
+                        flip = False
+                        while isinstance(t, ast.UnaryOp) and isinstance(t.op, ast.Not):
+                            t, flip = t.operand, not flip
                         neg = isinstance(t, ast.Compare) and isinstance(t.ops[0], ast.NotIn)
                         pos = isinstance(t, ast.Compare) and isinstance(t.ops[0], ast.In)
+                        if flip:
+                            neg, pos = pos, neg
                         in_body = any(cur is b or cur in list(ast.walk(b)) for b in p_.body)
                         if (pos and not in_body) or (neg and in_body):
                             ok = True
